@@ -38,6 +38,10 @@ import (
 
 const c18Prop = "C18"
 
+// c18ExemptArtifactEntries: OCI artifact manifests as index entries were exempt from the required closure
+// while the C03 finding unknown-type-index-entry-error-swallowed was open (fixed in /repo 748e2e6, 39c562a).
+const c18ExemptArtifactEntries = false
+
 // c18Infra is a harness failure (never a violation).
 type c18Infra struct{ err error }
 
@@ -59,6 +63,8 @@ var c18Srv struct {
 	once     sync.Once
 	src, tgt *httptest.Server
 	cur      atomic.Pointer[rm.Model]
+	rate     atomic.Bool // the source adds RateLimit-* headers to manifest responses
+	srcAddr  *string
 }
 
 func c18Handler(addr *string) http.Handler {
@@ -78,6 +84,11 @@ func c18Handler(addr *string) http.Handler {
 			return
 		}
 		defer resp.Body.Close()
+		if c18Srv.rate.Load() && addr == c18Srv.srcAddr && strings.Contains(r.URL.Path, "/manifests/") {
+			// a source that reports pull rate limits (plenty remaining)
+			w.Header().Set("RateLimit-Limit", "100;w=21600")
+			w.Header().Set("RateLimit-Remaining", "90;w=21600")
+		}
 		for k, vs := range resp.Header {
 			for _, v := range vs {
 				w.Header().Add(k, v)
@@ -101,6 +112,9 @@ func c18Servers() (srcAddr, tgtAddr string) {
 			s := httptest.NewUnstartedServer(c18Handler(addr))
 			*addr = s.Listener.Addr().String()
 			s.Start()
+			if c18Srv.srcAddr == nil {
+				c18Srv.srcAddr = addr
+			}
 			return s
 		}
 		c18Srv.src, c18Srv.tgt = mk(), mk()
@@ -116,6 +130,8 @@ type c18Env struct {
 	src, tgt *rm.Host
 	names    c18Names
 	artChild map[string]bool
+	srcDirs  map[string]bool // source repositories that are also materialised as OCI layouts
+	tgtDirs  map[string]bool // target repositories that are OCI layouts
 }
 
 func (e *c18Env) host(h string) *rm.Host {
@@ -125,10 +141,18 @@ func (e *c18Env) host(h string) *rm.Host {
 	return e.tgt
 }
 
-func c18Setup(c c18Case) *c18Env {
+func c18Setup(c c18Case, dirRoot string) *c18Env {
 	sa, ta := c18Servers()
-	e := &c18Env{c: c, m: rm.New(), artChild: map[string]bool{}}
-	e.names = c18Names{SrcAddr: sa, TgtAddr: ta, SrcName: sa, TgtName: ta}
+	e := &c18Env{c: c, m: rm.New(), artChild: map[string]bool{}, srcDirs: map[string]bool{}, tgtDirs: map[string]bool{}}
+	e.names = c18Names{SrcAddr: sa, TgtAddr: ta, SrcName: sa, TgtName: ta, DirRoot: dirRoot}
+	for _, en := range c.Entries {
+		if en.SrcDir {
+			e.srcDirs[en.SrcRepo] = true
+		}
+		if en.TgtDir {
+			e.tgtDirs[en.TgtRepo] = true
+		}
+	}
 	if c.Style.Alias {
 		e.names.SrcName, e.names.TgtName = "src.example.test", "tgt.example.test:5000"
 	}
@@ -143,7 +167,7 @@ func c18Setup(c c18Case) *c18Env {
 				continue
 			}
 			for _, ch := range n.Children {
-				if g.Nodes[ch].MediaType == rm.MTOCIArtifact {
+				if c18ExemptArtifactEntries && g.Nodes[ch].MediaType == rm.MTOCIArtifact {
 					e.artChild[g.Nodes[ch].Digest] = true
 				}
 			}
@@ -153,6 +177,9 @@ func c18Setup(c c18Case) *c18Env {
 		for _, r := range pop {
 			if (r.Host == "src") != (h == e.src) {
 				continue
+			}
+			if !source && r.Host == "tgt" && e.tgtDirs[r.Name] {
+				continue // materialised as a layout below
 			}
 			repo := h.Repo(r.Name)
 			for _, tr := range r.Tags {
@@ -173,7 +200,47 @@ func c18Setup(c c18Case) *c18Env {
 	put(e.src, c.Src, true)
 	put(e.src, c.Tgt, false)
 	put(e.tgt, c.Tgt, false)
+	// OCI layouts: sources mirror the registry repository's content, targets get their pre-state
+	for name := range e.srcDirs {
+		e.writeSrcDir(name)
+	}
+	for _, r := range c.Tgt {
+		if r.Host != "tgt" || !e.tgtDirs[r.Name] {
+			continue
+		}
+		repo := &rm.Repo{Blobs: map[string][]byte{}, Manifests: map[string]*rm.Manifest{}, Tags: map[string]string{}}
+		for _, tr := range r.Tags {
+			g := e.img(tr.Img)
+			c18PutGraph(repo, g, tr.Full)
+			repo.Tags[tr.Tag] = g.Nodes[g.Root].Digest
+		}
+		c18Fallbacks(repo)
+		if err := c18WriteLayout(filepath.Join(dirRoot, c18DirKey("tgt", r.Name)), repo); err != nil {
+			panic(c18Infra{err})
+		}
+	}
 	return e
+}
+
+// writeSrcDir (re)writes the layout form of a source repository from the model's raw state.
+func (e *c18Env) writeSrcDir(name string) {
+	src := e.src.Repos[name]
+	repo := &rm.Repo{Blobs: map[string][]byte{}, Manifests: map[string]*rm.Manifest{}, Tags: map[string]string{}}
+	if src != nil {
+		for k, v := range src.Blobs {
+			repo.Blobs[k] = v
+		}
+		for k, v := range src.Manifests {
+			repo.Manifests[k] = v
+		}
+		for k, v := range src.Tags {
+			repo.Tags[k] = v
+		}
+	}
+	c18Fallbacks(repo) // a layout has no referrers API
+	if err := c18WriteLayout(filepath.Join(e.names.DirRoot, c18DirKey("src", name)), repo); err != nil {
+		panic(c18Infra{err})
+	}
 }
 
 func (e *c18Env) img(i int) *imggen.Graph {
@@ -183,15 +250,25 @@ func (e *c18Env) img(i int) *imggen.Graph {
 	return e.c.Images[i]
 }
 
-// apply executes the source changes of a step (raw, outside any client).
+// apply executes the changes of a step (raw, outside any client): source
+// population changes, and drift of a target repository on a registry.
 func (e *c18Env) apply(chs []c18Change) {
 	e.m.Lock()
-	defer e.m.Unlock()
+	touched := map[string]bool{}
 	for _, ch := range chs {
-		if !c18IsSrcRepo(e.c, ch.Repo) {
-			continue
+		var h *rm.Host
+		switch {
+		case ch.Host == "" && c18IsSrcRepo(e.c, ch.Repo):
+			h = e.src
+			touched[ch.Repo] = true
+		case ch.Host == "tgt" && !e.tgtDirs[ch.Repo]:
+			h = e.tgt
+		case ch.Host == "src" && !c18IsSrcRepo(e.c, ch.Repo):
+			h = e.src
+		default:
+			continue // inapplicable change: no-op
 		}
-		repo := e.src.Repo(ch.Repo)
+		repo := h.Repo(ch.Repo)
 		switch ch.Op {
 		case "move", "add":
 			g := e.img(ch.Img)
@@ -200,14 +277,21 @@ func (e *c18Env) apply(chs []c18Change) {
 		case "delete":
 			delete(repo.Tags, ch.Tag)
 		}
-		if !e.src.Feat.Referrers {
+		if !h.Feat.Referrers {
 			c18Fallbacks(repo)
+		}
+	}
+	e.m.Unlock()
+	for name := range touched {
+		if e.srcDirs[name] {
+			e.writeSrcDir(name)
 		}
 	}
 }
 
 // run executes one regsync command in-process.
-func c18RunCmd(cmdName, confFile string) (err error, timedOut bool, stderr string) {
+func c18RunCmd(st c18Step, confFile string) (err error, timedOut bool, stderr string) {
+	cmdName := st.Cmd
 	var eb bytes.Buffer
 	cmd, _ := NewRootCmd()
 	cmd.SetOut(io.Discard)
@@ -218,7 +302,14 @@ func c18RunCmd(cmdName, confFile string) (err error, timedOut bool, stderr strin
 	} else if os.Getenv("VERIF_C18_ERRS") == "2" {
 		lvl = "warn"
 	}
-	cmd.SetArgs([]string{cmdName, "-c", confFile, "-v", lvl})
+	args := []string{cmdName, "-c", confFile, "-v", lvl}
+	if st.Missing && cmdName == "once" {
+		args = append(args, "--missing")
+	}
+	if st.Abort {
+		args = append(args, "--abort-on-error")
+	}
+	cmd.SetArgs(args)
 	ctx, cancel := context.WithTimeout(context.Background(), 120*time.Second)
 	defer cancel()
 	done := make(chan error, 1)
@@ -265,13 +356,42 @@ type c18YSync struct {
 	ForceRecursive *bool    `yaml:"forceRecursive"`
 	MediaTypes     []string `yaml:"mediaTypes"`
 	Backup         string   `yaml:"backup"`
+	Platforms      []string `yaml:"platforms"`
+	RefFilters     []c18YRF `yaml:"referrerFilters"`
+	RateLimit      struct {
+		Min int `yaml:"min"`
+	} `yaml:"ratelimit"`
+}
+
+type c18YRF struct {
+	ArtifactType string            `yaml:"artifactType"`
+	Annotations  map[string]string `yaml:"annotations"`
+}
+
+func c18EqRF(y []c18YRF, c []c18RefFilter) bool {
+	if len(y) != len(c) {
+		return false
+	}
+	for i := range y {
+		if y[i].ArtifactType != c[i].ArtifactType || len(y[i].Annotations) != len(c[i].Annotations) {
+			return false
+		}
+		for k, v := range c[i].Annotations {
+			if yv, ok := y[i].Annotations[k]; !ok || yv != v {
+				return false
+			}
+		}
+	}
+	return true
 }
 
 type c18YConf struct {
 	Creds []struct {
-		Registry string `yaml:"registry"`
-		Hostname string `yaml:"hostname"`
-		TLS      string `yaml:"tls"`
+		Registry  string `yaml:"registry"`
+		Hostname  string `yaml:"hostname"`
+		TLS       string `yaml:"tls"`
+		BlobChunk int    `yaml:"blobChunk"`
+		BlobMax   int    `yaml:"blobMax"`
 	} `yaml:"creds"`
 	Defaults struct {
 		Skip           bool     `yaml:"skipDockerConfig"`
@@ -282,6 +402,12 @@ type c18YConf struct {
 		ForceRecursive *bool    `yaml:"forceRecursive"`
 		MediaTypes     []string `yaml:"mediaTypes"`
 		Backup         string   `yaml:"backup"`
+		CacheCount     int      `yaml:"cacheCount"`
+		CacheTime      string   `yaml:"cacheTime"`
+		RefFilters     []c18YRF `yaml:"referrerFilters"`
+		RateLimit      struct {
+			Min int `yaml:"min"`
+		} `yaml:"ratelimit"`
 	} `yaml:"defaults"`
 	Sync []c18YSync `yaml:"sync"`
 }
@@ -302,7 +428,7 @@ func c18EqBool(a, b *bool) bool {
 
 // c18GuardYAML parses the rendered text with a plain YAML decoder and compares
 // it with the case (a renderer bug must not masquerade as a regsync defect).
-func c18GuardYAML(c c18Case, text string) error {
+func c18GuardYAML(c c18Case, n c18Names, text string) error {
 	var y c18YConf
 	if err := yaml.Unmarshal([]byte(text), &y); err != nil {
 		return fmt.Errorf("rendered YAML does not parse: %w\n%s", err, text)
@@ -320,6 +446,10 @@ func c18GuardYAML(c c18Case, text string) error {
 	if (len(c.Def.Backup) > 0) != (y.Defaults.Backup != "") || (len(c.Def.Backup) > 0 && y.Defaults.Backup != c18TemplateText(c.Def.Backup, c.Def.BackupFmt)) {
 		return bad("defaults.backup")
 	}
+	if c.Def.Cache != (y.Defaults.CacheCount > 0 && y.Defaults.CacheTime != "") || !c18EqRF(y.Defaults.RefFilters, c.Def.RefFilters) || y.Defaults.RateLimit.Min != c.Def.RateLimitMin ||
+		y.Creds[0].BlobChunk != c.SrcCfg.BlobChunk || y.Creds[0].BlobMax != c.SrcCfg.BlobMax || y.Creds[1].BlobChunk != c.TgtCfg.BlobChunk || y.Creds[1].BlobMax != c.TgtCfg.BlobMax {
+		return bad("defaults/creds (audit dimensions)")
+	}
 	for i, e := range c.Entries {
 		s := y.Sync[i]
 		if s.Type != e.Type || s.Platform != e.Platform || !c18EqStrs(s.Tags.Allow, e.TagsAllow) || !c18EqStrs(s.Tags.Deny, e.TagsDeny) ||
@@ -330,6 +460,10 @@ func c18GuardYAML(c c18Case, text string) error {
 		}
 		if (len(e.Backup) > 0) != (s.Backup != "") || (len(e.Backup) > 0 && s.Backup != c18TemplateText(e.Backup, e.BackupFmt)) {
 			return bad(fmt.Sprintf("sync[%d].backup", i))
+		}
+		wantSrc, wantTgt := c18SrcTgt(c, e, n)
+		if s.Source != wantSrc || s.Target != wantTgt || !c18EqStrs(s.Platforms, e.Platforms) || !c18EqRF(s.RefFilters, e.RefFilters) || s.RateLimit.Min != e.RateLimitMin {
+			return bad(fmt.Sprintf("sync[%d] (audit dimensions)", i))
 		}
 	}
 	return nil
@@ -349,6 +483,13 @@ func c18Normalise(c *c18Case) {
 		for i := range c.Entries {
 			c.Entries[i].SameHost = false
 		}
+		for si := range c.Steps {
+			for ci := range c.Steps[si].Changes {
+				if c.Steps[si].Changes[ci].Host == "src" {
+					c.Steps[si].Changes[ci].Host = "tgt"
+				}
+			}
+		}
 		for i := range c.Tgt {
 			c.Tgt[i].Host = "tgt"
 		}
@@ -357,22 +498,24 @@ func c18Normalise(c *c18Case) {
 
 func c18Check(c c18Case, ev *evid.Collector) *evid.Violation {
 	c18Normalise(&c)
-	env := c18Setup(c)
+	dir, err := os.MkdirTemp("", "c18-")
+	if err != nil {
+		panic(c18Infra{err})
+	}
+	defer os.RemoveAll(dir)
+	dirRoot := filepath.Join(dir, "layouts")
+	env := c18Setup(c, dirRoot)
 	c18Srv.cur.Store(env.m)
+	c18Srv.rate.Store(c.RateHeaders)
 	defer func() {
 		c18Srv.cur.Store(nil)
 		c18Srv.src.CloseClientConnections()
 		c18Srv.tgt.CloseClientConnections()
 	}()
 	text := c18YAML(c, env.names)
-	if err := c18GuardYAML(c, text); err != nil {
+	if err := c18GuardYAML(c, env.names, text); err != nil {
 		panic(c18Infra{err})
 	}
-	dir, err := os.MkdirTemp("", "c18-")
-	if err != nil {
-		panic(c18Infra{err})
-	}
-	defer os.RemoveAll(dir)
 	conf := filepath.Join(dir, "regsync.yml")
 	if err := os.WriteFile(conf, []byte(text), 0o600); err != nil {
 		panic(c18Infra{err})
@@ -387,6 +530,27 @@ func c18Check(c c18Case, ev *evid.Collector) *evid.Violation {
 		}
 		if e.Platform != "" {
 			lab("entry:platform")
+		}
+		if len(e.Platforms) > 0 {
+			lab("entry:platforms-list")
+		}
+		if e.SrcDir {
+			lab("endpoint:source-ocidir")
+		}
+		if e.TgtDir {
+			lab("endpoint:target-ocidir")
+		}
+		if e.SrcForm != "" {
+			lab("ref:source-" + e.SrcForm)
+		}
+		if e.TgtDefault {
+			lab("ref:target-default-tag")
+		}
+		if e.TgtTmpl {
+			lab("ref:target-template")
+		}
+		if e.EmptyLists {
+			lab("filter:explicit-empty-lists")
 		}
 		if len(e.TagsAllow) > 0 {
 			lab("filter:tags-allow")
@@ -421,6 +585,12 @@ func c18Check(c c18Case, ev *evid.Collector) *evid.Violation {
 		if len(o.Backup) > 0 {
 			lab("opt:backup")
 		}
+		if o.Referrers && len(o.RefFilters) > 0 {
+			lab("opt:referrer-filters")
+		}
+		if (e.RateLimitMin > 0 || c.Def.RateLimitMin > 0) && c.RateHeaders {
+			lab("opt:ratelimit-with-headers")
+		}
 		if len(e.MediaTypes) > 0 {
 			lab("opt:media-types-entry")
 		} else if len(c.Def.MediaTypes) > 0 {
@@ -428,6 +598,22 @@ func c18Check(c c18Case, ev *evid.Collector) *evid.Violation {
 		}
 	}
 	lab(fmt.Sprintf("parallel:%d", c.Def.Parallel))
+	if c.Def.Cache {
+		lab("opt:cache")
+	}
+	if c.SrcCfg != (c18HostCfg{}) || c.TgtCfg != (c18HostCfg{}) {
+		lab("opt:blob-chunk-settings")
+	}
+	for i := range c.Entries {
+		for j := range c.Entries[:i] {
+			if reflect.DeepEqual(c.Entries[i], c.Entries[j]) {
+				lab("entry:duplicate")
+			}
+			if c.Entries[i].Platform != "" && c.Entries[j].Platform != "" && c.Entries[i].Platform != c.Entries[j].Platform {
+				lab("entry:two-different-platforms")
+			}
+		}
+	}
 	if c.Style.Alias {
 		lab("style:alias-hostname")
 	}
@@ -458,10 +644,13 @@ func c18Check(c c18Case, ev *evid.Collector) *evid.Violation {
 		for _, ch := range st.Changes {
 			lab("change:" + ch.Op)
 		}
+		if len(st.Changes) > 0 {
+			prevOnceOK = false // something changed since the last complete run
+		}
 		x := &c18StepCtx{C: c, Step: i, Names: env.names, ArtChild: env.artChild, Labels: labels}
-		x.SrcPre, x.TgtPre = c18Snapshot(env.m, env.src), c18Snapshot(env.m, env.tgt)
+		x.SrcPre, x.TgtPre, x.DirPre = c18Snapshot(env.m, env.src), c18Snapshot(env.m, env.tgt), c18DirSnapshot(dirRoot)
 		start := env.m.Requests()
-		rerr, timedOut, stderr := c18RunCmd(st.Cmd, conf)
+		rerr, timedOut, stderr := c18RunCmd(st, conf)
 		if timedOut {
 			lab("outcome:watchdog")
 			ev.Case(false, "", c18LabelList(labels)...)
@@ -472,15 +661,29 @@ func c18Check(c c18Case, ev *evid.Collector) *evid.Violation {
 			ev.Case(false, "", c18LabelList(labels)...)
 			return nil
 		}
-		x.SrcPos, x.TgtPos = c18Snapshot(env.m, env.src), c18Snapshot(env.m, env.tgt)
+		x.SrcPos, x.TgtPos, x.DirPos = c18Snapshot(env.m, env.src), c18Snapshot(env.m, env.tgt), c18DirSnapshot(dirRoot)
 		x.Log = env.m.Entries()[start:]
-		x.Plan = c18Expect(c, x.SrcPre, env.names)
+		x.Plan = c18Expect(c, x.SrcPre, x.DirPre, env.names)
 		for l, n := range x.Plan.Labels {
 			labels[l] += n
 		}
 		lab("cmd:" + st.Cmd)
 		if i > 0 {
 			lab("step:second-run")
+		}
+		if i > 1 {
+			lab("step:third-run")
+		}
+		if st.Missing && st.Cmd == "once" {
+			lab("flag:missing")
+		}
+		if st.Abort {
+			lab("flag:abort-on-error")
+		}
+		for _, ch := range st.Changes {
+			if ch.Host != "" {
+				lab("change:target-drift")
+			}
 		}
 		var vs []*evid.Violation
 		vs = append(vs, x.judgeSource()...)
@@ -512,7 +715,7 @@ func c18Check(c c18Case, ev *evid.Collector) *evid.Violation {
 					lab("step:unchanged-rerun")
 					vs = append(vs, x.judgeRerun()...)
 				}
-				prevOnceOK = true
+				prevOnceOK = !st.Missing
 				total.Selected += x.Stats.Selected
 				total.Moved += x.Stats.Moved
 				total.Missing += x.Stats.Missing
